@@ -30,10 +30,10 @@ Qed.
 
 Lemma stepS_main_events sg s e s' t :
   InvS s -> step sg s e = Some s' ->
-  (e = ECommit t \/ (exists f, e = EPrepare t f) \/ (exists f, e = EPut t f) \/ (exists f, e = EDel t f) \/ e = EPutLost t) ->
+  (e = ECommit t \/ (exists f, e = EPrepare t f) \/ (exists f, e = EPut t f) \/ (exists f, e = EDel t f) \/ e = EPutLost t \/ e = EDelLost t) ->
   InvS s'.
 Proof.
-  intros I H [->|[[f ->]|[[f ->]|[[f ->]| ->]]]]; simpl in H.
+  intros I H [->|[[f ->]|[[f ->]|[[f ->]|[->| ->]]]]]; simpl in H.
   - destruct (pcs s t) eqn:Hpc; try discriminate.
     destruct old as [o|].
     + destruct (apply_changes (idx o) (map snd (items s))) as [|new] eqn:Ea.
@@ -60,6 +60,10 @@ Proof.
     assert (Hcm : committed s = true) by (apply (i_committed s I t); rewrite Hpc; reflexivity).
     injection H as <-; unfold set_pc, add_lin, set_reg; simpl;
       apply invS_main; auto; rewrite ?Hpc; auto.
+  - destruct (pcs s t) as [|c0| | |o|nw o|oi ap|r|r|r] eqn:Hpc; try discriminate.
+    assert (Hcm : committed s = true) by (apply (i_committed s I t); rewrite Hpc; reflexivity).
+    injection H as <-.
+    destruct ap; unfold set_pc, add_lin, set_reg; simpl; apply invS_main; auto; rewrite ?Hpc; auto.
 Qed.
 
 Lemma stepS_recv sg s t s' : InvS s -> step sg s (ERecvMain t) = Some s' -> InvS s'.
